@@ -101,6 +101,15 @@ Definition cdec (j : nat) (l r : cell) : cell :=
          else if qlt_bool (val0 r) (val0 l) then None else Some (val0 r - val0 l)
        end.
 
+(* plugins/util.UnreservedPart (fix 019e7c9): ExceededPart, except that a scalar dimension of the
+   left operand that does not exceed the right one is kept at zero instead of being dropped
+   (a dropped dimension of realCapability reads as "unbounded") *)
+Definition cexc (j : nat) (l r : cell) : cell :=
+  match cinc j l r with
+  | Some x => Some x
+  | None => match l with Some _ => Some 0 | None => None end
+  end.
+
 (* equality.Semantic.DeepEqual on one dimension *)
 Definition cdeq (a b : cell) : bool :=
   match a, b with
@@ -131,6 +140,7 @@ Definition vmin_zero : vec -> vec -> vec := zipw (fun _ => cmin_zero).
 Definition vmax : vec -> vec -> vec := zipw cmax.
 Definition vinc : vec -> vec -> vec := zipw cinc.     (* = api.ExceededPart *)
 Definition vdec : vec -> vec -> vec := zipw cdec.
+Definition vexc : vec -> vec -> vec := zipw cexc.   (* = util.UnreservedPart *)
 Definition vnorm (v : vec) : vec := map cnorm v.
 Definition vfix (D : nat) (v : vec) : vec := tab D (cnth v).
 Definition vsum (vs : list vec) : vec := fold_right vadd vzero vs.
@@ -149,10 +159,10 @@ Definition cap_norm (c : vec) : vec :=
   tab (length c) (fun j =>
     if is_base j then (if Qle_bool (val0 (cnth c j)) 0 then None else cnth c j) else cnth c j).
 
-(* realCapability = min(capability, total (-) totalGuarantee + guarantee);
+(* realCapability = min(capability, UnreservedPart(total, totalGuarantee) + guarantee);
    [cap = None]: the queue has no capability at all *)
 Definition real_cap (total tg g : vec) (cap : option vec) : vec :=
-  let rc := vadd (vinc total tg) g in
+  let rc := vadd (vexc total tg) g in
   match cap with None => rc | Some c => vmin_inf rc (cap_norm c) end.
 
 Record qattr := mkQ {
